@@ -1,6 +1,8 @@
 package c02
 
 import (
+	stdcmp "cmp"
+	"fmt"
 	"math/rand"
 	"reflect"
 	"unsafe"
@@ -15,6 +17,9 @@ type nodeView[K any] struct {
 	hasNext  bool
 	next     K
 	setValue func(int)
+	// live access to the node behind the view (a handle the harness keeps across operations)
+	again    func() *nodeView[K] // Key/Value/Next read afresh
+	nextNode func() *nodeView[K] // Next() as a view (nil at the end)
 }
 
 // list adapts SkipList[K,int] and SkipListWithCmp[K,int] to one shape.
@@ -32,7 +37,8 @@ type list[K any] struct {
 	rangeWithRange func(K, K, func(K, int) bool)
 	getNode, head  func() *nodeView[K] // getNode uses argKey
 	argKey         K
-	ptr            any // pointer to the list struct, for reflection
+	cmp            func(K, K) int // the order the list was built with
+	ptr            any            // pointer to the list struct, for reflection
 }
 
 func viewOrd[K interface {
@@ -45,6 +51,8 @@ func viewOrd[K interface {
 	if nx := n.Next(); nx != nil {
 		v.hasNext, v.next = true, nx.Key()
 	}
+	v.again = func() *nodeView[K] { return viewOrd(n) }
+	v.nextNode = func() *nodeView[K] { return viewOrd(n.Next()) }
 	return v
 }
 
@@ -56,13 +64,15 @@ func viewCmp[K any](n *listz.SkipNodeCmp[K, int]) *nodeView[K] {
 	if nx := n.Next(); nx != nil {
 		v.hasNext, v.next = true, nx.Key()
 	}
+	v.again = func() *nodeView[K] { return viewCmp(n) }
+	v.nextNode = func() *nodeView[K] { return viewCmp(n.Next()) }
 	return v
 }
 
 func wrapOrd[K interface {
 	~int | ~string
 }](s *listz.SkipList[K, int]) *list[K] {
-	l := &list[K]{ptr: s}
+	l := &list[K]{ptr: s, cmp: func(a, b K) int { return stdcmp.Compare(a, b) }}
 	l.set, l.setNx, l.setX = s.Set, s.SetNx, s.SetX
 	l.get, l.remove = s.Get, s.Remove
 	l.clear, l.init = s.Clear, s.Init
@@ -76,7 +86,7 @@ func wrapOrd[K interface {
 }
 
 func wrapCmp[K any](s *listz.SkipListWithCmp[K, int], cmp func(K, K) int) *list[K] {
-	l := &list[K]{ptr: s}
+	l := &list[K]{ptr: s, cmp: cmp}
 	l.set, l.setNx, l.setX = s.Set, s.SetNx, s.SetX
 	l.get, l.remove = s.Get, s.Remove
 	l.clear = s.Clear
@@ -150,26 +160,29 @@ func towers(ptr any, showKey func(reflect.Value) string) (level, n int, isNil bo
 	}
 	linked := map[unsafe.Pointer]int{}
 	slots := map[unsafe.Pointer]int{}
+	seen := map[unsafe.Pointer]int{} // level (+1) at which the node was last met
 	for i := 0; i < hn.Len(); i++ {
 		var ch []string
 		p := hn.Index(i)
-		steps := 0
 		for !p.IsNil() {
+			if seen[p.UnsafePointer()] == i+1 {
+				// a node reached twice along one level: every search through it loops forever
+				bad = fmt.Sprintf("cycle in the level-%d chain", i)
+				break
+			}
+			seen[p.UnsafePointer()] = i + 1
 			node := p.Elem()
 			ch = append(ch, showKey(node.FieldByName("key")))
 			linked[p.UnsafePointer()]++
 			nx := node.FieldByName("next")
 			slots[p.UnsafePointer()] = nx.Len()
 			if i >= nx.Len() {
-				bad = "node linked above its height"
+				if bad == "" {
+					bad = "node linked above its height"
+				}
 				break
 			}
 			p = nx.Index(i)
-			steps++
-			if steps > 100000 {
-				bad = "cycle"
-				break
-			}
 		}
 		chains = append(chains, ch)
 	}
